@@ -25,11 +25,12 @@ from lib import fw
 MODULE = "AurelVerif.Props.C18"
 THEOREMS = ["AurelVerif.C18." + t for t in (
     "parse_format_key", "parse_format_file", "parse_format_checkpoint", "parse_h5file_ignores_directory",
-    "print_parse_roundtrip", "print_parse_roundtrip_unconditional_is_false", "restarts_done_spec",
+    "print_parse_roundtrip", "print_parse_linebreak_hypothesis_is_necessary", "restarts_done_spec",
     "iterations_call_spec", "incremental_eq_fresh", "iterations_idempotent", "stable_criterion", "stable_prefix",
     "scan_level_faithful", "content_cached_eq_scanned", "content_key_roundtrip",
-    "overall_no_singles_independent_of_linspace", "linspace_is_not_membership",
-    "overall_drops_iteration_witness", "overall_full_is_false", "exS_stable", "exS0_stable")]
+    "overall_faithful", "merge_never_raises", "merge_step_faithful",
+    "overall_no_singles_independent_of_membership", "overall_single_inside_range",
+    "overall_equal_stride_gap_witness", "exS_stable", "exS0_stable")]
 FILES = ["AurelVerif/Props/C18.lean", "AurelVerif/Lemmas/Catalog.lean", "AurelVerif/Lemmas/CatalogParse.lean",
          "AurelVerif/Lemmas/CatalogIncr.lean", "AurelVerif/Lemmas/CatalogScan.lean",
          "AurelVerif/Model/Catalog.lean", "Driver/C18.lean"]
@@ -656,7 +657,7 @@ def real_h5(reading, n):
 
 
 # --------------------------------------------------------------------------
-# fuzz of read_iterations / collect_overall_iterations / linspace
+# fuzz of read_iterations / collect_overall_iterations / range membership
 
 TEXT_LINES = [" === restart %d", "3D variables available: ['alpha', 'betaup3']", "3D variables available: ['a']",
               "it = %d -> %d", "rl = %d at it = np.arange(%d, %d, %d)", "rl = %d at it = [%d]",
@@ -761,7 +762,7 @@ def correspondence(ctx, reading):
     finally:
         shutil.rmtree(root, ignore_errors=True)
     nmeta = len(lines) - len(meta)
-    # fuzzed texts, overall inputs, linspace membership
+    # fuzzed texts, overall inputs, range membership
     ntext = ctx.budget(400, 4000)
     for _ in range(ntext):
         txt = gen_text(ctx.rng)
@@ -886,8 +887,22 @@ def excluded_points(ctx, reading):
             last = ("err", e2) if e2 else ("ok", r2)
             res[name] = e2 if e2 else "ok"
             found += oracle_check(ctx, reading, tree, last, log)
-        # the np.linspace membership test of collect_overall_iterations: restart from a
-        # checkpoint inside the previous range that wrote a single iteration, and the converse
+        # excluded point of T2 (line break inside the path): recorded, not judged
+        plan = {"name": "a\n->b", "layout": "onefile", "nchunks": 0, "with_m": False, "xyz": 0, "with_attr": True,
+                "numbers": [0], "adversarial": True,
+                "restarts": [{"levels": [{"stride": 2, "its": [0, 2, 4]}], "checkpoints": [], "empty": False,
+                              "variables": (["alp"], [])}]}
+        sub = os.path.join(root, "n0")
+        os.makedirs(sub)
+        try:
+            tree = Tree(ctx, plan, sub)
+            run_sequence(ctx, reading, tree, 0, ops=[("add",), ("iter", False)])
+            e2, r2 = call(reading.iterations, tree.param, skip_last=False, verbose=False)
+            res["path with line break 'a\\n->b' (excluded by T2), second iterations()"] = e2 if e2 else "ok"
+        except OSError as ex:
+            res["path with line break"] = "not creatable: %r" % ex
+        # single iteration next to a range (formerly np.linspace): restart from a checkpoint
+        # inside the previous range that wrote a single iteration, and the converse
         for j, (its0, its1) in enumerate([([0, 2, 4, 6], [4]), ([640], [512, 640, 768, 896, 1024])]):
             plan = {"name": "simA", "layout": "onefile", "nchunks": 0, "with_m": False, "xyz": 0, "with_attr": True,
                     "numbers": [0, 1], "adversarial": False,
@@ -964,12 +979,11 @@ def run(ctx):
     from aurel import reading
     ctx.trusted += ["Lean 4.33 kernel; axioms propext, Classical.choice, Quot.sound",
                     "Model/Catalog.lean is hand-written; tied to reading.py by correspondence on generated trees, call "
-                    "sequences, fuzzed catalogue texts, overall-merge inputs, linspace queries and regex differential",
+                    "sequences, fuzzed catalogue texts, overall-merge inputs, range-membership queries and regex differential",
                     "Python str.split / in / int / repr / print, json.dump/load inverse on dict[str, list[str]], "
-                    "os.listdir order = glob order, h5py key listing (taken from the real libraries as inputs)",
-                    "IEEE binary64 round-to-nearest-even model of np.linspace (validated by the `lin` queries)"]
+                    "os.listdir order = glob order, glob.escape makes the path literal, h5py key listing (taken from "
+                    "the real libraries as inputs)"]
     ctx.assumptions += ["restart directories are not modified after they have been catalogued (only new restarts appear)",
-                        "simulation path free of glob metacharacters * ? [ (glob.glob is applied to the whole path)",
                         "all HDF5 files readable; ASCII digits only in names"]
     ctx.prove(MODULE, THEOREMS)
     ctx.forbidden_scan(FILES)
@@ -1005,7 +1019,7 @@ def replay(ctx, obj):
 
 MANIFEST = {
     "category": "proof",
-    "technique": "Lean 4 theorems over a hand-written executable model of the catalogue code (string-level printer / split-based parser, regex matchers, incremental iterations() on a modelled file system, get_content cache, overall merge with a binary64 model of np.linspace), tied to reading.py by correspondence on generated simulation trees and call sequences and by regex differential testing",
-    "text": "Proof for all inputs: the three name matchers invert the naming scheme for every valid key / file name / checkpoint name; read_iterations parses back every catalogue the printer can write, under explicit hypotheses on names and paths; any interleaving of iterations() calls with restarts being added leaves the same file and returns the same structure as one fresh scan; cached get_content equals the scan when no variable name contains a comma; the per-level summary is the arithmetic progression on disk. The overall merge is proven independent of np.linspace only when no restart has a single iteration at a level; a kernel-checked witness shows the linspace test is not a membership test and drops an iteration.",
-    "note": "Trusted: Lean kernel + propext/Classical.choice/Quot.sound; the hand-written model (validated on every run against the real code: returned dicts and bytes of iterations.txt/content.txt after every call on generated trees with benign and adversarial names, 1-5 restarts, 1-3 levels, four file layouts, checkpoints); Python str/int/repr/json/glob/h5py semantics; binary64 model of linspace. parameters() is not modelled.",
+    "technique": "Lean 4 theorems over a hand-written executable model of the catalogue code (string-level printer / split-based parser, regex matchers, incremental iterations() on a modelled file system, get_content cache, overall merge), tied to reading.py by correspondence on generated simulation trees and call sequences and by regex differential testing",
+    "text": "Proof for all inputs: the three name matchers invert the naming scheme for every valid key / file name / checkpoint name; read_iterations parses back every catalogue the printer can write, for every path without a line break and plain variable names; any interleaving of iterations() calls with restarts being added leaves the same file and returns the same structure as one fresh scan; cached get_content equals the scan when no variable name contains a comma; the per-level summary is the arithmetic progression on disk. The overall merge never raises and describes exactly the union of the per-restart progressions, provided every merge of two equal-stride ranges continues the first one (the code does not check this; kernel-checked gap witness).",
+    "note": "Trusted: Lean kernel + propext/Classical.choice/Quot.sound; the hand-written model (validated on every run against the real code: returned dicts and bytes of iterations.txt/content.txt after every call on generated trees with benign and adversarial names, 1-5 restarts, 1-3 levels, four file layouts, checkpoints); Python str/int/repr/json/glob/h5py semantics. parameters() is not modelled.",
 }
